@@ -109,6 +109,26 @@ def walk(tr, stmts, out, field):
             out.append('.unsupported "translator: %s"' % type(e).__name__)
 
 
+def normalise(out):
+    """adjacent constant stores to pairwise different words commute: runs of `.segInit` (different rows) and of `.murSeed`
+    (different words) are put in ascending order, the order of today's source"""
+    res, i = [], 0
+    while i < len(out):
+        kind = ".segInit " if out[i].startswith(".segInit ") else ".murSeed " if out[i].startswith(".murSeed ") else None
+        if kind is None:
+            res.append(out[i])
+            i += 1
+            continue
+        j = i
+        while j < len(out) and out[j].startswith(kind):
+            j += 1
+        run = out[i:j]
+        keys = [int(x.split()[1]) for x in run]
+        res += [x for _, x in sorted(zip(keys, run))] if len(set(keys)) == len(keys) else run
+        i = j
+    return res
+
+
 def main(argv=None):
     argv = argv or sys.argv[1:]
     repo, lean = argv[0], argv[1]
@@ -134,6 +154,7 @@ def main(argv=None):
                 continue
             out = []
             walk(tr, kids(cs[0]), out, field)
+            out = normalise(out)
             rows.append((rel, fn, out))
             break
     txt = ["import IsalVerif.Impl.MhInitC",
